@@ -111,8 +111,12 @@ var c11Inputs = []interface{}{nil, map[string]interface{}{"a": 1.0, "k k": []int
 // denotes; wantOK=false texts (malformed escapes, lone surrogates, numbers out
 // of range) must not compile.
 func c11Check(x *explore.Ctx, text string, want interface{}, wantOK bool) {
+	c11CheckOn(x, text, want, wantOK, c11Inputs)
+}
+
+func c11CheckOn(x *explore.Ctx, text string, want interface{}, wantOK bool, inputs []interface{}) {
 	nontrivial := false
-	for i, in := range c11Inputs {
+	for i, in := range inputs {
 		got := impl.Run(text, in)
 		x.Eval()
 		x.Validated()
@@ -209,7 +213,7 @@ func init() {
 			"-0 and 0 are the same number",
 		},
 		Phases: []explore.Phase{
-			{Name: "strings", Quick: []int{0, 1, 2, 3}, Thorough: []int{0, 1, 2, 3, 4}, Run: func(c *explore.Chooser, x *explore.Ctx, size int) {
+			{Name: "strings", Quick: []int{0, 1, 2, 3}, Thorough: []int{0, 1, 2, 3, 4, 5}, Run: func(c *explore.Chooser, x *explore.Ctx, size int) {
 				var sb strings.Builder
 				hasQuote := false
 				for i := 0; i < size; i++ {
@@ -222,6 +226,21 @@ func init() {
 				single := c.Bool()
 				c.Done()
 				body := sb.String()
+				// a lone backslash unit followed by an escape unit re-tokenises (\ + \" reads as an escaped
+				// backslash and a closing quote): the text is then not one string literal and the statement is silent
+				q := byte('"')
+				if single {
+					q = '\''
+				}
+				for i := 0; i < len(body); i++ {
+					if body[i] == '\\' {
+						i++
+						continue
+					}
+					if body[i] == q {
+						return
+					}
+				}
 				want, ok := refJSONString(body, '"')
 				if single {
 					// the same content between single quotes: a raw " is an ordinary
@@ -239,7 +258,15 @@ func init() {
 					if hasQuote {
 						return // a raw ' would end the literal: not the same text
 					}
+					if size >= 5 {
+						c11CheckOn(x, "'"+body+"'", want, ok, c11Inputs[1:2])
+						return
+					}
 					c11Check(x, "'"+body+"'", want, ok)
+					return
+				}
+				if size >= 5 { // the longest strings on one input (a literal does not look at its input)
+					c11CheckOn(x, `"`+body+`"`, want, ok, c11Inputs[1:2])
 					return
 				}
 				c11Check(x, `"`+body+`"`, want, ok)
